@@ -530,6 +530,7 @@ func runC05(c *Ctx) {
 	}()
 
 	ruleCompressDst(c, p, "C05.dst")
+	ruleMethodTable(c, p, "C05.methods")
 
 	// ---- C05.frame
 	ruleFrameLayout(c, p, "C05.frame", rb, wr)
@@ -704,4 +705,100 @@ func ruleCompressDst(c *Ctx, p *core.Program, rule string) {
 		}
 	}()
 
+}
+
+// ruleMethodTable (C05.methods / C02.methods): method byte and codec family agree between writer and reader.
+func ruleMethodTable(c *Ctx, p *core.Program, rule string) {
+	c.R.Rule(rule, "table extraction: the method byte written for each compress.Method (initialiser of methodTable) is the protocol's (None 0x02, LZ4 and LZ4HC 0x82, ZSTD 0x90), and the codec family Writer.Compress uses in `case M` (lz4 / zstd / plain copy, by the package of the callee) is the family readBlock uses in the case of that byte")
+	cfg := p.Cfg.Name
+	wr := p.Method(core.PkgCompress, "Writer", "Compress")
+	rb := p.Method(core.PkgCompress, "Reader", "readBlock")
+	if !c.must(p, "compress Writer.Compress / Reader.readBlock", wr != nil && rb != nil) {
+		return
+	}
+	family := func(fn *ssa.Function, blk *ssa.BasicBlock, stop func(*ssa.BasicBlock) bool) string {
+		fams := map[string]bool{}
+		for _, b := range fn.Blocks {
+			if b != blk && !blk.Dominates(b) {
+				continue
+			}
+			if stop != nil && stop(b) {
+				continue
+			}
+			for _, in := range b.Instrs {
+				call, ok := in.(ssa.CallInstruction)
+				if !ok {
+					continue
+				}
+				if bi, ok := call.Common().Value.(*ssa.Builtin); ok && bi.Name() == "copy" {
+					fams["copy"] = true
+				}
+				if f := core.CalleeFunc(call); f != nil && f.Pkg() != nil {
+					switch {
+					case strings.Contains(f.Pkg().Path(), "/lz4"):
+						fams["lz4"] = true
+					case strings.Contains(f.Pkg().Path(), "/zstd"):
+						fams["zstd"] = true
+					}
+				}
+			}
+		}
+		var out []string
+		for k := range fams {
+			out = append(out, k)
+		}
+		sort.Strings(out)
+		return strings.Join(out, "+")
+	}
+	wt := switchTable(wr, func(v ssa.Value) bool { return core.IsNamed(v.Type(), core.PkgCompress, "Method") })
+	rt := switchTable(rb, func(v ssa.Value) bool { return core.IsNamed(v.Type(), core.PkgCompress, "methodEncoding") })
+	// the method table initialiser
+	tbl := map[int64]int64{}
+	if pk := p.Prog.Package(p.Pkgs[core.PkgCompress].Types); pk != nil {
+		if init := pk.Func("init"); init != nil {
+			for _, b := range init.Blocks {
+				for _, in := range b.Instrs {
+					mu, ok := in.(*ssa.MapUpdate)
+					if !ok || !core.IsNamed(mu.Key.Type(), core.PkgCompress, "Method") {
+						continue
+					}
+					k, ok1 := core.ConstInt(mu.Key)
+					v, ok2 := core.ConstInt(mu.Value)
+					if ok1 && ok2 {
+						tbl[k] = v
+					}
+				}
+			}
+		}
+	}
+	doc := map[string]int64{"None": 0x02, "LZ4": 0x82, "LZ4HC": 0x82, "ZSTD": 0x90}
+	n := 0
+	for _, nm := range []string{"None", "LZ4", "LZ4HC", "ZSTD"} {
+		m, ok := constOf(p, core.PkgCompress, nm)
+		if !ok {
+			c.R.Unk(rule, nm, cfg, "", "method constant missing")
+			continue
+		}
+		n++
+		by, okT := tbl[m]
+		wblk, rblk := wt[m], rt[by]
+		switch {
+		case !okT:
+			c.R.Bad(rule, nm, cfg, p.Pos(wr.Pos()), "no method byte for compress."+nm+" in methodTable: frames are written with method byte 0")
+		case by != doc[nm]:
+			c.R.Bad(rule, nm, cfg, p.Pos(wr.Pos()), sprintf("compress.%s is announced with method byte %#x, the protocol uses %#x", nm, by, doc[nm]))
+		case wblk == nil:
+			c.R.Bad(rule, nm, cfg, p.Pos(wr.Pos()), "Writer.Compress has no case for compress."+nm+": the frame carries no payload")
+		case rblk == nil:
+			c.R.Bad(rule, nm, cfg, p.Pos(rb.Pos()), sprintf("readBlock has no case for method byte %#x", by))
+		default:
+			wf, rf := family(wr, wblk, nil), family(rb, rblk, nil)
+			if wf != "" && wf == rf {
+				c.R.Ok(rule, nm, cfg, p.Pos(wblk.Instrs[0].Pos()), sprintf("byte %#x, %s on both sides", by, wf))
+			} else {
+				c.R.Bad(rule, nm, cfg, p.Pos(wblk.Instrs[0].Pos()), sprintf("compress.%s is compressed with [%s] but its method byte %#x is decompressed with [%s]", nm, wf, by, rf))
+			}
+		}
+	}
+	c.R.Floor(rule, cfg, n, 4)
 }
